@@ -1,5 +1,6 @@
 #![allow(dead_code)]
 mod analysis;
+mod corpus;
 mod driver;
 mod exec;
 mod gen;
